@@ -36,6 +36,16 @@ func deepInstrsPruned(root *ssa.Function, depth int, prune func(*ssa.Function) b
 					s = in
 				}
 				out = append(out, deepInstr{in: in, site: s, calls: chain})
+				if df, ok := in.(*ssa.Defer); ok && d > 0 {
+					// a deferred closure / helper runs at every exit of fn: its instructions belong to the deep view (no
+					// parameter mapping: the chain is left as it is)
+					cal := staticCallee(&df.Call)
+					if cal != nil && cal.Blocks != nil && !seen[cal] && rootFn(cal).Pkg == rootFn(root).Pkg && cal != root && (prune == nil || !prune(cal)) {
+						seen[cal] = true
+						walk(cal, s, chain, seen, d-1)
+						delete(seen, cal)
+					}
+				}
 				if call, ok := in.(*ssa.Call); ok && d > 0 {
 					cal := staticCallee(&call.Call)
 					if cal != nil && cal.Blocks != nil && !seen[cal] && rootFn(cal).Pkg == rootFn(root).Pkg && cal != root && (prune == nil || !prune(cal)) {
